@@ -171,6 +171,19 @@ pub fn verif_global_duart_snapshot() -> Option<Vec<i64>> {
     }
 }
 
+/// Replace the process-global machine behind the C interface by a freshly
+/// constructed one (test isolation between independent call histories).
+#[cfg(dmd_core_verif)]
+pub fn verif_global_fresh() -> bool {
+    match DMD.lock() {
+        Ok(mut dmd) => {
+            *dmd = Dmd::new();
+            true
+        }
+        Err(_) => false,
+    }
+}
+
 //
 // Provide a C interface
 //
